@@ -187,82 +187,78 @@ theorem gone_unmarked_witness :
       s.known = false ∧ s.live = 1 ∧ s.run = some Inst.fresh := by
   refine ⟨_, rfl, ?_, ?_, ?_⟩ <;> decide
 
-/-! ## stopping never crashes the operator — false for the daemon killer's loop (finding F11)
+/-! ## stopping never crashes the operator: the daemon killer's sweep
 
-  FULL CLAUSE (false of the code): the killer's iteration over `memory.running_daemons` completes.
-  It iterates the live dict across awaits; one entry erased before the last `next()` raises. -/
+  Since /repo 06bf1c1 the killer iterates `list(memory.running_daemons.values())` (and
+  `list(memories.iter_all_daemon_memories())`): a snapshot taken before the first await. -/
 
-/-- Any change of the dict's size seen by a `next()` that is still due raises RuntimeError. -/
-theorem killer_iteration_raises (size0 pos sz : Nat) (pre rest : List Nat) (hpre : ∀ x ∈ pre, x = size0)
-    (hdue : pos + pre.length ≤ size0) (hsz : sz ≠ size0) :
-    iterLive size0 pos (pre ++ sz :: rest) = .raised := by
-  induction pre generalizing pos with
-  | nil => simp [iterLive, hsz]
-  | cons x xs ih =>
-    have hx : x = size0 := hpre x (by simp)
-    subst hx
-    have hlt : ¬ x ≤ pos := by simp only [List.length_cons] at hdue; omega
-    simp only [List.cons_append, iterLive, ne_eq, not_true_eq_false, if_false, hlt]
-    exact ih (pos + 1) (fun y hy => hpre y (by simp [hy])) (by simp only [List.length_cons] at hdue; omega)
+/-- Whatever the daemons do to the dict while the killer awaits between two steps (any sequence of
+    sizes), the sweep never raises and visits exactly the daemons that were there when it started. -/
+theorem killer_sweep_visits_all {α : Type} (snapshot : List α) (sizes : List Nat) :
+    iterSnapshot snapshot sizes [] = (.finished, snapshot) := by
+  have h : ∀ (xs : List α) (szs : List Nat) (acc : List α),
+      iterSnapshot xs szs acc = (.finished, acc.reverse ++ xs) := by
+    intro xs
+    induction xs with
+    | nil => intro szs acc; simp [iterSnapshot]
+    | cons x xs ih =>
+      intro szs acc
+      cases szs with
+      | nil => simp [iterSnapshot, ih]
+      | cons z zs => simp [iterSnapshot, ih]
+  simpa using h snapshot sizes []
 
-/-- …while an iteration during which nothing is erased (or over a snapshot, as `stop_daemons` does
-    with `list(daemons.values())`) never raises. -/
-theorem iteration_safe_when_stable (size0 pos : Nat) (sizes : List Nat) (h : ∀ x ∈ sizes, x = size0) :
-    iterLive size0 pos sizes = .finished := by
-  induction sizes generalizing pos with
-  | nil => rfl
-  | cons x xs ih =>
-    have hx : x = size0 := h x (by simp)
-    subst hx
-    simp only [iterLive, ne_eq, not_true_eq_false, if_false]
-    split
-    · rfl
-    · exact ih (pos + 1) (fun y hy => h y (by simp [hy]))
+/-- HISTORICAL (finding F11, fixed by 06bf1c1; kept as the regression's model-side witness): the old
+    loop over the live dict view raised as soon as one of three daemons had erased itself. -/
+theorem old_killer_iteration_witness : iterLive 3 0 [3, 3, 2] = .raised := by decide
 
-/-- three daemons on one object; the first one stopped has erased itself before the third `next()` -/
-theorem killer_iteration_witness : iterLive 3 0 [3, 3, 2] = .raised := by decide
+example : iterSnapshot ["t0", "d1", "t2"] [3, 3, 2] [] = (.finished, ["t0", "d1", "t2"]) := by decide
 
 /-! ## stopping never stalls: the micro-steps of `_timer` -/
 
-/-- With the loop guard (`… and not stopper.is_set()`) in place: from EVERY program point, in EVERY
-    environment (stopper set or not, any clock, any idle-reset time, any handler outcome) and for
-    every timer configuration with a positive `idle`, the coroutine suspends or returns within 6
-    steps. -/
-theorem progress (c : TCfg) (e : TEnv) (o : Bool × Tick) (l : TLoc) (hg : c.guarded = true)
-    (hpos : ∀ d, c.idle = some d → 0 < d) : settles c e o 6 l = true :=
-  settles_all c e o hpos l (by simp [spinning, hg])
+/-- For the tree under test (`guarded = treeGuarded`: the after-run idle loop also tests the stopper):
+    from EVERY program point, in EVERY environment (stopper set or not, any clock, any idle-reset time),
+    for every handler outcome (including a series that has failed for good, whose "run" does not
+    suspend) and every timer configuration with positive `idle`/`interval`, the coroutine suspends or
+    returns within 10 steps. -/
+theorem progress (c : TCfg) (e : TEnv) (o : Outcome) (l : TLoc) (hg : c.guarded = treeGuarded)
+    (hidle : ∀ d, c.idle = some d → 0 < d) (hint : ∀ v, c.interval = some v → 0 < v) :
+    settles c e o 10 l = true :=
+  settles_all c e o hg hidle hint l
 
-/-- FULL CLAUSE (`progress` for the tree as it is, `guarded = false`) is false — see `idle_only_spins`.
-    Proved: the same bound from every program point outside the spin set, which is exactly:
-    idle is configured, the stopper is set, no essential change since the last run, and control is in
-    the after-run idle loop (or about to enter it: run finished, no interval). -/
-theorem progress_partial (c : TCfg) (e : TEnv) (o : Bool × Tick) (l : TLoc)
-    (hpos : ∀ d, c.idle = some d → 0 < d) (hns : spinning c e l = false) : settles c e o 6 l = true :=
-  settles_all c e o hpos l hns
-
-/-- The guard of `progress_partial` is exact: inside the spin set NO number of steps reaches a
-    suspension or a return (the environment cannot change meanwhile: nothing else gets to run). -/
-theorem idle_only_spins (c : TCfg) (e : TEnv) (o : Bool × Tick) (l : TLoc) (hs : spinning c e l = true) :
+/-- HISTORICAL (finding F1, fixed by 6ccf081): without the guard, inside the spin set NO number of
+    steps reaches a suspension or a return (nothing else gets to run meanwhile). -/
+theorem idle_only_spins (c : TCfg) (e : TEnv) (o : Outcome) (l : TLoc) (hs : spinning c e l = true) :
     ∀ k, settles c e o k l = false :=
   fun k => spinning_never_settles c e o k l hs
 
-/-- The witness of F1: `@kopf.timer(idle=1s)`, one run at tick 129, nothing changed since, the
-    stopper gets set while the timer sleeps in its after-run loop: it wakes up and never suspends again. -/
+/-- HISTORICAL witness of F1: `@kopf.timer(idle=1s)` before the repair, one run at tick 129, nothing
+    changed since, the stopper gets set while the timer sleeps in its after-run loop. -/
 theorem idle_only_spins_witness :
     let c : TCfg := { initialDelay := none, idle := some 64, interval := none, sharp := false, guarded := false }
     let e : TEnv := { now := 256, stop := true, idleReset := 64 }
-    let l : TLoc := { pc := .idleLoop, started := 129, done := true, errDelay := 0 }
-    spinning c e l = true ∧ tstep c e (true, 0) l = .cont l ∧ ∀ k, settles c e (true, 0) k l = false := by
-  intro c e l
+    let l : TLoc := { pc := .idleLoop, started := 129, done := true, failed := false, errDelay := 0 }
+    let o : Outcome := { done := true, failed := false, errDelay := 0 }
+    spinning c e l = true ∧ tstep c e o l = .cont l ∧ ∀ k, settles c e o k l = false := by
+  intro c e l o
   have hs : spinning c e l = true := by decide
-  exact ⟨hs, by decide, fun k => spinning_never_settles c e (true, 0) k l hs⟩
+  exact ⟨hs, by decide, fun k => spinning_never_settles c e o k l hs⟩
 
-/-- …and the same state with the one-line guard leaves the loop and returns in three steps. -/
+/-- the same state in the current tree: the loop is left and `_timer` returns in two steps -/
 example :
-    let c : TCfg := { initialDelay := none, idle := some 64, interval := none, sharp := false, guarded := true }
+    let c : TCfg := { initialDelay := none, idle := some 64, interval := none, sharp := false, guarded := treeGuarded }
     let e : TEnv := { now := 256, stop := true, idleReset := 64 }
-    let l : TLoc := { pc := .idleLoop, started := 129, done := true, errDelay := 0 }
-    settles c e (true, 0) 2 l = true ∧ settles c e (true, 0) 1 l = false := by decide
+    let l : TLoc := { pc := .idleLoop, started := 129, done := true, failed := false, errDelay := 0 }
+    let o : Outcome := { done := true, failed := false, errDelay := 0 }
+    spinning c e l = false ∧ settles c e o 2 l = true ∧ settles c e o 1 l = false := by decide
+
+/-- a timer whose series has failed for good: its non-suspending "run" is followed by a real sleep -/
+example :
+    let c : TCfg := { initialDelay := none, idle := none, interval := some 64, sharp := true, guarded := treeGuarded }
+    let e : TEnv := { now := 500, stop := false, idleReset := 0 }
+    let l : TLoc := { pc := .head, started := 436, done := true, failed := true, errDelay := 0 }
+    let o : Outcome := { done := true, failed := true, errDelay := 0 }
+    settles c e o 3 l = true ∧ settles c e o 2 l = false := by decide
 
 /-! ## non-vacuity -/
 
